@@ -510,7 +510,9 @@ func (rs *runState) judge(prop string, clientFinished bool, out *core.Outcome) {
 			if s > e {
 				s = e
 			}
-			val := func(em ardoptnc.Emission) bool { return strings.HasSuffix(strings.ToUpper(strings.TrimSpace(em.Text)), "TRUE") }
+			val := func(em ardoptnc.Emission) bool {
+				return strings.HasSuffix(strings.ToUpper(strings.TrimSpace(em.Text)), "TRUE")
+			}
 			match := false
 			for a := 0; a <= s && !match; a++ {
 				b := a + len(got)
